@@ -1,7 +1,7 @@
 ---------------------------- MODULE PopulatorMC ----------------------------
 (* Enumerated scenario families for Populator (cfg: Scenarios <- Sc_...,     *)
 (* a sequence of sets of scenarios).                                        *)
-(* A scenario: [files, dirs, cn, ct, calls] ; a call: [add, n, t] with the  *)
+(* A scenario: [files, dirs, cn, ct, calls, fresh (calls that start on a new map)] ; a call: [add, n, t] with the  *)
 (* rules added before it and the per-call options ("T" / "F" / "N" = None). *)
 EXTENDS Populator
 
@@ -39,7 +39,8 @@ MM == <<<<"m">>>>                               \* never exists
 ExtSets == {{}, {"txt"}, {"txt", "png"}, {"gz"}}
 Protos1 == {P(d, x) : d \in {RD, DS, RE}, x \in ExtSets} \cup {P(FF, {}), P(MM, {})}
 PC(add, n, t) == [add |-> add, n |-> n, t |-> t]
-Scn(tree, cn, ct, calls) == [files |-> tree.files, dirs |-> tree.dirs, cn |-> cn, ct |-> ct, calls |-> calls]
+ScnF(tree, cn, ct, calls, fresh) == [files |-> tree.files, dirs |-> tree.dirs, cn |-> cn, ct |-> ct, calls |-> calls, fresh |-> fresh]
+Scn(tree, cn, ct, calls) == ScnF(tree, cn, ct, calls, {})
 BoolOpt == {"T", "F"}
 Opt == {"T", "F", "N"}
 
@@ -71,12 +72,27 @@ Fam4a == {Scn(tr, cn, ct, <<PC(Mk(l, 0), n, t)>>) : tr \in Trees4, l \in Lists4,
 Fam4b == {Scn(tr, cn, ct, <<PC(Mk(l, 0), n, t), PC(<<>>, n, t)>>)
             : tr \in Trees4, l \in Lists4, cn \in BOOLEAN, ct \in BOOLEAN, n \in Opt, t \in Opt}
 
+\* 5. one populator, several calls: a per-call option must not become the populator's default. Call 1 gives
+\* anything, the last call leaves at least one option to the constructor; on the same map and on a new one
+Last5 == {<<"N", "N">>, <<"N", "T">>, <<"N", "F">>, <<"T", "N">>, <<"F", "N">>}
+Fam5a(Trees) == {ScnF(tr, cn, ct, <<PC(Mk(l, 0), n, t), PC(<<>>, o[1], o[2])>>, fr)
+                   : tr \in Trees, l \in Lists4, cn \in BOOLEAN, ct \in BOOLEAN, n \in Opt, t \in Opt, o \in Last5, fr \in {{}, {2}}}
+\* p(m); p(m, the opposite of the constructor); p(m)  and  p(m1, opposite); p(m2, opposite); p(m3)
+Neg(b) == IF b THEN "F" ELSE "T"
+S5b(tr, l, cn, ct, on, ot, same, fr) ==
+    LET n == IF on THEN Neg(cn) ELSE "N"
+        t == IF ot THEN Neg(ct) ELSE "N"
+    IN ScnF(tr, cn, ct, <<PC(Mk(l, 0), IF same THEN n ELSE "N", IF same THEN t ELSE "N"), PC(<<>>, n, t), PC(<<>>, "N", "N")>>, fr)
+Fam5b(Trees) == {S5b(tr, l, cn, ct, on, ot, same, fr) : tr \in Trees, l \in Lists4, cn \in BOOLEAN, ct \in BOOLEAN,
+                   on \in BOOLEAN, ot \in BOOLEAN, same \in BOOLEAN, fr \in {{}, {3}, {2, 3}}}
+Trees5 == {Tree({dxt, dxp}, {}), Tree({dx, dxt, dsxt}, {})}
+
 Empties == {{}, {dt}, {dtt}, {dst}}
 TreesQ == {Tree(F, {}) : F \in UpTo(FileU, 2)} \cup RichTrees
 TreesC == {Tree(F, {}) : F \in UpTo(DFiles, 3) \ {{}}}
 
 \* Scenarios is a *sequence* of families: TLC's union of two enumerated sets is quadratic in their size
-Sc_quick == <<Fam1(TreesQ, {"N"}), Fam1(TreesC \cup RichTrees, {"T"}), Fam2a(TreesC, Lists2), Fam2b(TreesC, Lists2, Adds2), Fam3a(2), Fam3b(2), Fam4a, Fam4b>>
+Sc_quick == <<Fam1(TreesQ, {"N"}), Fam1(TreesC \cup RichTrees, {"T"}), Fam2a(TreesC, Lists2), Fam2b(TreesC, Lists2, Adds2), Fam3a(2), Fam3b(2), Fam4a, Fam4b, Fam5a(Trees5), Fam5b(Trees5)>>
 TreesTiny == {Tree({dxt, dxp}, {}), Tree({dxt, dyg}, {})}
 Sc_tiny == <<Fam2a(TreesTiny, Lists2), Fam2b(TreesTiny, Lists2, Adds2), Fam3a(1), Fam3b(1)>>     \* switch runs
 =============================================================================
